@@ -387,13 +387,19 @@ Fixpoint insert_at {A} (i : nat) (x : A) (l : list A) : list A :=
   | S _, [] => [x]
   end.
 
-Fixpoint merge_rules (top : nat) (arules : list rule) (braw : list rule) : list rule :=
+(* the rule loop of MergeSpoc: prepended rules keep their order at the top; the
+   position of the first [APPEND] rule is computed once (before the trailing
+   DROP rules of the chain), the following ones are placed behind it *)
+Fixpoint merge_rules_at (top : nat) (bottom : option nat) (arules : list rule) (braw : list rule) : list rule :=
   match braw with
   | [] => arules
   | ru :: rest =>
-      if ru_append ru then merge_rules top (insert_at (append_index arules) ru arules) rest
-      else merge_rules (S top) (insert_at top ru arules) rest
+      if ru_append ru then
+        let b := match bottom with Some b => b | None => append_index arules end in
+        merge_rules_at top (Some (S b)) (insert_at b ru arules) rest
+      else merge_rules_at (S top) (match bottom with Some b => Some (S b) | None => None end) (insert_at top ru arules) rest
   end.
+Definition merge_rules (top : nat) (arules braw : list rule) : list rule := merge_rules_at top None arules braw.
 
 (* ------------------------------------------------------------------ *)
 (* Whole-config level: merge of a raw/IPv6 part, rendering, output     *)
